@@ -824,6 +824,13 @@ def hy_eval_user(model, globals = None, locals = None, module = None, macros = N
     hy_was = None
     if locals and 'hy' in locals:
         hy_was = (locals['hy'],)
+    # The implicit `import hy` binds `hy` in `locals`, but code in a
+    # function body looks it up in `globals`. So a separate `globals`
+    # gets the module, too, for as long as the evaluation lasts.
+    separate_globals = globals is not None and globals is not locals
+    if separate_globals:
+        globals_hy_was = ('hy' in globals, globals.get('hy'))
+        globals['hy'] = hy
     try:
         value = hy_eval(
             hytree = model,
@@ -842,6 +849,11 @@ def hy_eval_user(model, globals = None, locals = None, module = None, macros = N
                 # Remove the implicitly added `hy` (if execution
                 # reached far enough to add it).
                 locals.pop('hy', None)
+        if separate_globals:
+            if globals_hy_was[0]:
+                globals['hy'] = globals_hy_was[1]
+            else:
+                globals.pop('hy', None)
     return value
 
 
